@@ -110,6 +110,11 @@ class Indentation(afmformats.AFMForceDistance):
                 fp.pop("preprocessing", None)
                 fp.pop("preprocessing_options", None)
                 self._preprocessing_details = {}
+                # The data were only partially processed: go back to the
+                # raw data (no preprocessing applied).
+                self.reset_data()
+                self.preprocessing = []
+                self.preprocessing_options = {}
                 raise
             self._preprocessing_details = details
             # Check availability of axes
@@ -233,10 +238,13 @@ class Indentation(afmformats.AFMForceDistance):
             indentation depth and determining a plateau in the
             resulting Young's modulus (fitting parameter "E").
         """
-        if "preprocessing" in kwargs:
+        if "preprocessing" in kwargs or "preprocessing_options" in kwargs:
+            # (new options alone also require the data to be preprocessed
+            # again, otherwise they would be stored but not applied)
+            preprocessing = kwargs.get("preprocessing", self.preprocessing)
             options = kwargs.get("preprocessing_options",
                                  self.preprocessing_options)
-            self.apply_preprocessing(preprocessing=kwargs["preprocessing"],
+            self.apply_preprocessing(preprocessing=preprocessing,
                                      options=options)
         # self.fit_properties is an instance of FitProperties that
         # stores previous fit kwargs. If the given kwargs are
@@ -246,6 +254,19 @@ class Indentation(afmformats.AFMForceDistance):
         # (sorted, such that `model_key` is set before `params_initial`)
         for arg in sorted(kwargs.keys()):
             self.fit_properties[arg] = kwargs[arg]
+
+        # The preprocessing settings may also have been edited directly in
+        # `fit_properties`. Make sure that the data are preprocessed
+        # accordingly, otherwise results would be shown for settings that
+        # were never applied.
+        fp = self.fit_properties
+        if ("preprocessing" in fp
+            and [fp["preprocessing"], fp.get("preprocessing_options", {})]
+                != [self.preprocessing, self.preprocessing_options]):
+            preprocessing = fp.pop("preprocessing")
+            options = fp.pop("preprocessing_options", {})
+            self.apply_preprocessing(preprocessing=preprocessing,
+                                     options=options)
 
         # set a default model (needed for self.get_initial_fit_parameters)
         if "model_key" not in self.fit_properties:
